@@ -78,9 +78,19 @@ type ifStmt struct {
 	old2 codeBlockCtx
 }
 
+// isBoolCond reports whether a value of type t can be the condition of an if / for statement or a
+// case of a tagless switch: its underlying type must be boolean (a defined boolean type qualifies).
+func isBoolCond(t types.Type) bool {
+	if types.AssignableTo(t, types.Typ[types.Bool]) {
+		return true
+	}
+	b, ok := t.Underlying().(*types.Basic)
+	return ok && b.Info()&types.IsBoolean != 0
+}
+
 func (p *ifStmt) Then(cb *CodeBuilder, src ...ast.Node) {
 	cond := cb.stk.Pop()
-	if !types.AssignableTo(cond.Type, types.Typ[types.Bool]) {
+	if !isBoolCond(cond.Type) {
 		cb.panicCodeError(getPos(src), getEnd(src), "non-boolean condition in if statement")
 	}
 	p.cond = cond.Val
@@ -201,7 +211,7 @@ func (p *caseStmt) Then(cb *CodeBuilder, src ...ast.Node) {
 						pos, end, "cannot use %s (type %v) as type %v", src, arg.Type, types.Default(p.tag.Type))
 				}
 			} else { // switch {...}
-				if !types.AssignableTo(arg.Type, types.Typ[types.Bool]) && arg.Type != TyEmptyInterface {
+				if !isBoolCond(arg.Type) && arg.Type != TyEmptyInterface {
 					src, pos, end := cb.loadExpr(arg.Src)
 					cb.panicCodeErrorf(pos, end, "cannot use %s (type %v) as type bool", src, arg.Type)
 				}
@@ -425,7 +435,7 @@ type forStmt struct {
 func (p *forStmt) Then(cb *CodeBuilder, src ...ast.Node) {
 	cond := cb.stk.Pop()
 	if cond.Val != nil {
-		if !types.AssignableTo(cond.Type, types.Typ[types.Bool]) {
+		if !isBoolCond(cond.Type) {
 			panic("TODO: for statement condition is not a boolean expr")
 		}
 		p.cond = cond.Val
